@@ -39,7 +39,7 @@ func checkC11(c *Check) {
 		c.Undecidedf("ANCHOR", "importer Load methods", "-", "only %d Load/LoadFile methods found in pkg/importer", len(entries))
 		return
 	}
-	runGenEngines(c, genOpts{entries: entries, order: true, guard: true, deref: true, rec: true})
+	runGenEngines(c, genOpts{entries: entries, order: true, guard: true, deref: true, rec: true, modelRO: true})
 	// sink is a buffer
 	var nw *ssa.Function
 	for _, f := range p.RepoFuncs() {
@@ -185,7 +185,7 @@ func checkC12(c *Check) {
 		c.Undecidedf("ANCHOR", "exporter entries", "-", "only %d exporter entry points found", len(entries))
 		return
 	}
-	runGenEngines(c, genOpts{entries: entries, order: true, guard: true, deref: true, rec: true})
+	runGenEngines(c, genOpts{entries: entries, order: true, guard: true, deref: true, rec: true, modelRO: true})
 
 	// kind-table agreement
 	wp := p.Pkg("pkg/syslwrapper")
